@@ -32,6 +32,8 @@ from ..env.rngseam import Seam, Script
 from ..gen import popbuild, popvals
 from ..ref import dosing as rd, populations as rp
 
+from . import c10 as _c10  # noqa: E402
+
 PROPERTY = 'C15'
 
 
@@ -323,7 +325,7 @@ def w_poppred(case):
 # ---------------------------------------------------------- coded posterior models
 
 def coded_posterior(n_chains, n_draws, inds, pad=False, offset=0,
-                    pooled_sigma=False, draw_first=False):
+                    pooled_sigma=False, draw_first=False, longer=None):
     """Every entry encodes (parameter, chain, draw, individual). With
     pooled_sigma the error parameter is a population-level variable (chain, draw),
     as in a hierarchical fit with a pooled dimension."""
@@ -346,6 +348,11 @@ def coded_posterior(n_chains, n_draws, inds, pad=False, offset=0,
                     arr[c, d, i] = offset + 1000 * (p + 1) + 100 * c + 10 * d + i
         if pad:
             arr[:, n_draws, :] = np.nan
+        if longer is not None:
+            # the OTHER individuals have fewer draws (their last draws are missing)
+            for i in range(len(inds)):
+                if i != longer:
+                    arr[:, n_draws - 1 - i % 2:, i] = np.nan
         data[n] = (('chain', 'draw', 'individual'), arr)
     nd = n_draws + (1 if pad else 0)
     ds = xr.Dataset(data, coords={'chain': list(range(n_chains)),
@@ -363,12 +370,12 @@ def decode(v, offset=0):
             'ind': v % 10}
 
 
-def _values(df, ns, ts):
+def _values(df, ns, ts, obs='r0'):
     out = np.empty((ns, len(ts)))
     for s in range(ns):
         for t in range(len(ts)):
             r = df[(df['ID'] == s + 1) & (df['Time'] == ts[t])
-                   & (df['Observable'] == 'r0')]
+                   & (df['Observable'] == obs)]
             out[s, t] = float(r['Value'].iloc[0]) if len(r) == 1 else np.nan
     return out
 
@@ -383,7 +390,8 @@ def w_posterior(case):
     viol = []
     ds = coded_posterior(nc, nd, inds, pad=case['pad'],
                          pooled_sigma=case.get('pooled_sigma', False),
-                         draw_first=case.get('draw_first', False))
+                         draw_first=case.get('draw_first', False),
+                         longer=case.get('longer'))
     ppm = chi.PosteriorPredictiveModel(pred_model(1), ds)
     res = []
     for zval in (0.0, 1.0):
@@ -455,22 +463,26 @@ def w_prior(case):
     times = case['times']
     ts = np.sort(times)
     viol = []
-    pri = pints.ComposedLogPrior(pints.UniformLogPrior(1.0, 3.0),
-                                 pints.UniformLogPrior(0.1, 0.4))
-    ppm = chi.PriorPredictiveModel(pred_model(1), pri)
+    k = case.get('k', 1)
+    pri = pints.ComposedLogPrior(*(
+        [pints.UniformLogPrior(1.0 + j, 3.0 + j) for j in range(k)]
+        + [pints.UniformLogPrior(0.1, 0.4 + 0.1 * j) for j in range(k)]))
+    ppm = chi.PriorPredictiveModel(pred_model(k), pri)
     with Seam(Script(base=generic)) as seam:
         df = ppm.sample(list(times), n_samples=ns, seed=case['seed'])
         log = list(seam.log)
-    y = _values(df, ns, ts)
+    ys = [_values(df, ns, ts, 'r%d' % j) for j in range(k)]
+    y = np.concatenate(ys, axis=1)
     # pints' own draws under the same script, in the same order
     with Seam(Script(base=generic)) as seam2:
         np.random.seed(case['seed'])
         thetas = [pri.sample().flatten() for _ in range(ns)]
     for s in range(ns):
-        q, sg = thetas[s]
-        z = (y[s] - q * tf(ts)) / sg
+        # (all outputs of one sample stem from ONE prior draw)
+        z = np.concatenate([
+            (ys[j][s] - thetas[s][j] * tf(ts)) / thetas[s][k + j] for j in range(k)])
         stream = 'seed:%d' % (case['seed'] + s + 1)
-        avail = [Script()(stream, i, 'z') for i in range(len(ts) * ns)]
+        avail = [Script()(stream, i, 'z') for i in range(len(ts) * ns * k)]
         ok = all(any(abs(zz - a) < 1e-8 for a in avail) for zz in z) and \
             len(set(np.round(z, 8))) == len(z)
         if not ok:
@@ -685,6 +697,7 @@ def w_regimen(case):
 
 WORKERS = {'predictive': w_pred, 'population': w_poppred, 'posterior': w_posterior,
            'prior': w_prior, 'pam': w_pam, 'regimen': w_regimen,
+           'wrapped_regimen': _c10.w_wrapped_table,
            'prior_population': w_prior_pop, 'param_map': w_param_map,
            'reduced_source': w_reduced_source}
 
@@ -707,7 +720,11 @@ def build(tier, seed):
             rp.Comp([rp.Cov(rp.G(1), 1), rp.Cov(rp.LN(1), 2)]),
             rp.Comp([rp.Cov(rp.LN(1, False), 2), rp.Cov(rp.LN(1), 1)]),
             # covariate models around multi-dimensional models
-            rp.Cov(rp.LN(2), 1), rp.Cov(rp.LN(2, False), 2), rp.Cov(rp.LN(2), 2)]
+            rp.Cov(rp.LN(2), 1), rp.Cov(rp.LN(2, False), 2), rp.Cov(rp.LN(2), 2),
+            # no random effects at all, yet the patients differ by their covariates
+            rp.Cov(rp.P(2), 1), rp.Comp([rp.Cov(rp.P(1), 2), rp.P(1)]),
+            rp.Comp([rp.Cov(rp.P(1), 1), rp.Cov(rp.P(1), 1)]),
+            rp.Comp([rp.P(1), rp.Cov(rp.P(1), 1)])]
     popc = []
     for spec in pops:
         for ns in (1, 2, 3):
@@ -743,10 +760,23 @@ def build(tier, seed):
                                          'n_samples': ns, 'times': perms[3],
                                          'answers': list(ans), 'pad': pad,
                                          'pooled_sigma': pooled})
-    prior = [{'n_samples': ns, 'times': p, 'seed': sd}
-             for ns in (1, 2, 3) for p in perms[:3] for sd in (3, 8)]
+    # individuals whose chains have different numbers of draws: every row of the
+    # selected (longest) individual can be chosen
+    for nc, nd in ((2, 3), (1, 3)):
+        for li, ind in enumerate(['a', 'b', 'c']):
+            for ans in range(nc * nd):
+                post.append({'draw_first': False, 'n_chains': nc, 'n_draws': nd,
+                             'inds': ['a', 'b', 'c'], 'individual': ind,
+                             'n_samples': 1, 'times': perms[3], 'answers': [ans],
+                             'pad': False, 'pooled_sigma': False, 'longer': li})
+    prior = [{'n_samples': ns, 'times': p, 'seed': sd, 'k': k}
+             for k in (1, 2, 3) for ns in (1, 2, 3) for p in perms[:3]
+             for sd in (3, 8)]
     from . import c18 as _c18
-    pmaps = [c for c in _c18.build('quick', seed)['parts'][0].cases]
+    wrapped_regs = [c for part in _c10.build('quick', seed)['parts']
+                    if part.name == 'wrapped_table' for c in part.cases]
+    pmaps = [c for part in _c18.build('quick', seed)['parts']
+             if part.name == 'param_map' for c in part.cases]
     rs_ops = ['user_refix', 'user_release', 'user_fix_other', 'user_simulate',
               'pred_fix_other', 'pred_refix']
     red_src = [{'ops': list(seq)} for d in (1, 2, 3)
@@ -794,6 +824,10 @@ def build(tier, seed):
             Part('pam', pam, w_pam, 'PAMPredictiveModel: all model assignments, '
                  'probabilities passed to choice'),
             Part('regimen', regs, w_regimen, 'dose rows of sample tables'),
+            Part('wrapped_regimen', wrapped_regs, _c10.w_wrapped_table,
+                 'dose rows of the tables of population / prior / posterior / '
+                 'averaged predictive models, sorted and unsorted times (cases and '
+                 'oracle of C10)'),
         ],
         'bounds': {'times': t3, 'n_samples_max': 3, 'deviation_bound': 1},
         'rule': 'complete enumeration of categorical answers (posterior rows, model '
